@@ -221,7 +221,9 @@ def job(item):
             out["records"].append({"kind": "inconclusive", "tag": tag, "why": "limit not derivable from the exponential-polynomial shape"})
             continue
         if mine == "oo":
-            if not (lim in (sp.oo, -sp.oo, sp.zoo)):
+            # an oscillating divergence is reported by sympy's limit as AccumBounds(-oo, oo): not a finite value either
+            unbounded = isinstance(lim, sp.AccumBounds) and (lim.min == -sp.oo or lim.max == sp.oo)
+            if not (lim in (sp.oo, -sp.oo, sp.zoo) or unbounded):
                 out["records"].append({"kind": "violation", "key": f"{pid}|E({g})|limit", "tag": tag, "what": f"E({g}) after the loop diverges but is reported as {lim}", "replay": {"text": text, "goal": g}})
             out["limits"] += 1
             continue
